@@ -1,4 +1,4 @@
-import EbisimProofs.Lemmas.Fd
+import EbisimProofs.Lemmas.MaxPrinciple
 
 /-! # C12 — radial Poisson solver: exact on quadratics, grounded at the wall, linear
 
@@ -239,6 +239,65 @@ theorem potential_linear (α β : ℝ) (r rho1 rho2 : List ℝ) (hr : 2 ≤ r.le
   have key := solve_linear α β (withRhs c b1) b1 b2 (by omega) (by omega)
   rw [← e0, ← e2, ← e1] at key
   exact key
+
+/-! ### the solver solves the (weakly dominant) finite-difference system; maximum principle -/
+
+/-- **the computed potential solves the finite-difference Poisson system exactly** (over ℝ), on
+every admissible grid and for every charge distribution: the system is only *weakly* diagonally
+dominant, but the Thomas algorithm never meets a zero pivot on it -/
+theorem potential_solves_fd (r rho : List ℝ) (hg : GridMP r) (hl : rho.length = r.length) :
+    mulTri 0 (withRhs (fdNonuniform r) (poissonRhs rho)) (potentialNonuniform r rho) = poissonRhs rho := by
+  have hP := fd_system_poisson_type r (poissonRhs rho) hg (by rw [poissonRhs_length, hl])
+  have := solve_correct_of_pois _ hP
+  unfold potentialNonuniform
+  rw [this]
+  exact withRhs_map_b _ _ (by rw [fdNonuniform_length' r hg, poissonRhs_length, hl])
+
+/-- **discrete maximum principle for the potential**: a charge density that is nowhere positive
+(electrons) gives a potential that never decreases outward and is nowhere positive; with the wall
+value 0 (`wall_zero`) it is a well whose minimum is on the axis -/
+theorem potential_monotone (r rho : List ℝ) (hg : GridMP r) (hl : rho.length = r.length)
+    (hrho : ∀ v ∈ rho, v ≤ 0) :
+    List.Pairwise (· ≤ ·) (potentialNonuniform r rho) ∧ ∀ v ∈ potentialNonuniform r rho, v ≤ 0 := by
+  have hbl : (poissonRhs rho).length = r.length := by rw [poissonRhs_length, hl]
+  have hP := fd_system_poisson_type r (poissonRhs rho) hg hbl
+  have hB := rhsNonneg_withRhs (fdNonuniform r) (poissonRhs rho) (poissonRhs_nonneg rho hrho)
+  have hsol := solve_correct_of_pois _ hP
+  have hmono : List.Pairwise (· ≤ ·) (potentialNonuniform r rho) := by
+    unfold potentialNonuniform
+    refine mono_of_pois _ 0 _ hP hB (by rw [solve_length]) hsol ?_
+    intro rw hrw x0 _
+    rw [fdNonuniform_head_l r _ rw hrw]; simp
+  refine ⟨hmono, ?_⟩
+  have hr2 : 2 ≤ r.length := hg.two_le
+  exact le_last_of_pairwise _ hmono 0 (wall_zero r rho hr2 hl).1
+
+/-- **monotone dependence on the charge**: if `ρ₁ ≤ ρ₂` at every node then `φ₁ ≤ φ₂` at every node
+(adding positive charge never lowers the potential anywhere) -/
+theorem potential_mono_charge (r rho1 rho2 : List ℝ) (hg : GridMP r)
+    (h1 : rho1.length = r.length) (h2 : rho2.length = r.length)
+    (hle : ∀ p ∈ List.zip rho1 rho2, p.1 ≤ p.2) :
+    ∀ p ∈ List.zip (potentialNonuniform r rho1) (potentialNonuniform r rho2), p.1 ≤ p.2 := by
+  have hr2 : 2 ≤ r.length := hg.two_le
+  have hlin := potential_linear 1 (-1) r rho1 rho2 hr2 h1 h2
+  have hneg : ∀ v ∈ List.zipWith (fun x y => 1 * x + -1 * y) rho1 rho2, v ≤ 0 := by
+    intro v hv
+    rw [← List.map_uncurry_zip_eq_zipWith] at hv
+    obtain ⟨p, hp, rfl⟩ := List.mem_map.mp hv
+    have := hle p hp
+    simp only [Function.uncurry]; linarith
+  have hm := (potential_monotone r _ hg (by simp [h1, h2]) hneg).2
+  rw [hlin] at hm
+  intro p hp
+  have : (fun x y : ℝ => 1 * x + -1 * y) p.1 p.2 ∈
+      List.zipWith (fun x y => 1 * x + -1 * y) (potentialNonuniform r rho1) (potentialNonuniform r rho2) := by
+    rw [← List.map_uncurry_zip_eq_zipWith]
+    exact List.mem_map.mpr ⟨p, hp, rfl⟩
+  have := hm _ this
+  simp only at this; linarith
+
+example : GridMP [0, 1, 2, 3.5, 6] := by
+  simp only [GridMP, StepsOk]; norm_num
 
 /-! ### non-vacuity -/
 example : GridOk [0, 1, 3] := by
